@@ -76,7 +76,7 @@ def run(ctx):
         total = len(hs)
         if total == 0:
             raise vlib.Inconclusive('no sequential histories generated')
-        hs = vlib.sample_list(ctx.rng, hs, 20000 if quick else 150000)
+        hs = vlib.sample_list(ctx.rng, hs, 20000 if quick else 50000)
         ready = sorted(sets['Gates'] + sets['Prog'], key=RANK.index, reverse=True)
         health = sorted(sets['HGen'] + sets['HPulse'] + sets['HShards'], key=RANK.index, reverse=True)
         cases = [{'mode': 'replay', 'gates': sets['Gates'], 'gens': sets['HGen'], 'preR': ready if prereg else [],
@@ -95,7 +95,7 @@ def run(ctx):
             ctx.absorb(res, lines)
 
     # 3. concurrent traces -> TraceHealth
-    nfiles, ntraces = (1, 16) if quick else (6, 60)
+    nfiles, ntraces = (1, 16) if quick else (4, 40)
     tstats = {'traces': 0, 'lines': 0, 'overlapping_calls': 0, 'accepted': 0}
 
     def traces(k):
